@@ -7,9 +7,6 @@ From Qv Require Import Common.Bytes Gen.GenQrdata Model.Mime Model.QrData Model.
   Proofs.MimeTotalProofs Proofs.QrWrapHeaderProofs Proofs.QrPiecesProofs Proofs.QrQpTailProofs Proofs.QrBoundaryProofs.
 Require Import Lia.
 
-Lemma outof_wr st x : outof (wr st x) = outof st ++ x.
-Proof. unfold outof, wr. cbn [out rev]. rewrite concat_app. cbn [concat]. now rewrite app_nil_r. Qed.
-
 Definition good0 (ext8 : bool) (D0 : bytes) (st : St) (t : bytes) : Prop :=
   exists X, outof st = D0 ++ X /\ wire ext8 X t /\ legal_line ext8 t.
 
